@@ -49,8 +49,12 @@ def _safe(fn, *a, **k):
 EX = ("gene", "score")
 
 
-def _deco(rows, tag):
-    return [r + (f"{tag}{i % 3}", float(i) + 0.5) for i, r in enumerate(rows)]
+def _deco(rows, tag, rng=None):
+    if rng is None or rng.random() < 0.4:
+        return [r + (f"{tag}{i % 3}", float(i) + 0.5) for i, r in enumerate(rows)]
+    # values as real tables have them: neighbouring rows share a value, some are missing
+    levels = [0.5, 0.5, 1.5, 2.5, float("nan")] if rng.random() < 0.5 else [0.5, 1.5, 2.5]
+    return [r + (f"{tag}{i % 3}", float(rng.choice(levels))) for i, r in enumerate(rows)]
 
 
 def _drive(run, a, q, rng, light=False):
@@ -66,7 +70,8 @@ def _drive(run, a, q, rng, light=False):
     elif k == 1:
         _safe(a.into_ranges, q, "score", np.nan)
     else:
-        _safe(a.into_ranges, q, "score", -1.0, max)
+        _safe(a.into_ranges, q, "score", -1.0, [max, len, sum, np.nanmean][int(rng.integers(0, 4))])     # functions that see every overlapping row's value: multiplicity and missing values matter
+        _safe(a.into_ranges, q, "score", -1.0)
     # single-range queries, with open bounds
     chroms = sorted(set(a.chromosome)) or ["chr1"]
     for qr in list(q)[: 1 if light else 3]:
@@ -122,7 +127,7 @@ def case_random(run, i):
     ca = [c for c in allc if rng.random() < 0.85] or allc[:1]
     cq = [c for c in allc if rng.random() < 0.85] or allc[:1]
     maxc = int(rng.choice([40, 2000, 10**6]))
-    a_rows = _deco(random_intervals(rng, int(rng.integers(0, 61)), maxc, ca), "g")
+    a_rows = _deco(random_intervals(rng, int(rng.integers(0, 61)), maxc, ca), "g", rng)
     q_rows = _deco(random_intervals(rng, int(rng.integers(0, 26)), maxc, cq), "q")
     if rng.random() < 0.15:
         # queries at coordinate 0 and exactly touching a row's end/start
